@@ -387,3 +387,63 @@ Print Assumptions C08_tag_blind_refuted.
 Theorem C08_tag_blind_refuted_cross_file : tag_blind_refutes w_tag2_dk w_tag2 2.
 Proof. exact tag_blind_refuted2. Qed.
 Print Assumptions C08_tag_blind_refuted_cross_file.
+
+(* ---- annotation types (check 18, "not define annotate type" / "duplicate annotate type"): the project-wide type table
+        is part of the cross-file analysis `cross` of the model - C08_full_proved covers it like every other diagnostic.
+        Regression on the seeded change C08-5 (HandleFileEventChanges no longer rebuilds createTypeMap at its end: after a
+        notification that names DELETIONS ONLY the deleted file's classes stay in the table). a.lua `---@class T1`, b.lua
+        `---@type T1`; the watcher reports the deletion of a.lua alone: the model of the code as it is publishes
+        "not define annotate type: T1" for b.lua, the fresh start's view ---- *)
+Theorem C08_ann_type_deleted_regression :
+  toy_meets deployed w_ann_dk w_ann /\
+  view (snd (run toyA deployed w_ann_dk [])) 1 = [] /\
+  view (snd (run toyA deployed w_ann_dk w_ann)) 1 = [(18, 0, 11)].
+Proof. exact ann_deleted_meets. Qed.
+Print Assumptions C08_ann_type_deleted_regression.
+(* b.lua declares the class too (and uses T1, T2): the duplicate warning of both files goes away with a.lua *)
+Theorem C08_ann_type_duplicate_regression :
+  toy_meets deployed w_dup_dk w_ann /\
+  view (snd (run toyA deployed w_dup_dk [])) 0 = [(18, 0, 21)] /\
+  view (snd (run toyA deployed w_dup_dk [])) 1 = [(18, 2, 12); (18, 0, 21)] /\
+  view (snd (run toyA deployed w_dup_dk w_ann)) 0 = [] /\
+  view (snd (run toyA deployed w_dup_dk w_ann)) 1 = [(18, 2, 12)].
+Proof. exact ann_duplicate_meets. Qed.
+Print Assumptions C08_ann_type_duplicate_regression.
+(* the declaring document lies outside the workspace: its class is known exactly while the document is open *)
+Theorem C08_ann_type_outside_regression :
+  toy_meets deployed w_ann_out_dk w_ann_out /\
+  view (snd (run toyA deployed w_ann_out_dk [])) 0 = [(18, 0, 11)] /\
+  view (snd (run toyA deployed w_ann_out_dk [AOpen 4])) 0 = [] /\
+  view (snd (run toyA deployed w_ann_out_dk w_ann_out)) 0 = [(18, 0, 11)].
+Proof. exact ann_outside_meets. Qed.
+Print Assumptions C08_ann_type_outside_regression.
+
+(* ---- DirManager.IsInDir (findings indir_empty_plugin_path and indir_subdir_prefix of known_findings/C08.json, both
+        repaired). The model takes IsInDir as the field `in_dir` of the analysis, and C08_full_proved holds for every
+        analysis: what the two defects broke was the tie between that field and the real function. Before the repairs
+        IsInDir answered TRUE FOR EVERY PATH when the client had not sent the PluginPath option (strings.HasPrefix(file, "")),
+        and FALSE for the files of a second workspace folder (the prefix test had its arguments swapped), so no instance of
+        the model described the server in those configurations. The deployed IsInDir is "below the root, the plugin directory
+        if there is one, or a further workspace folder": the correspondence check runs the histories in three configurations
+        (with / without PluginPath: instance toyA; two workspace folders: instance toyA_all) ---- *)
+Theorem C08_toy_all_analysis_ok : analysis_ok toyA_all.
+Proof. exact toy_all_ok. Qed.
+Print Assumptions C08_toy_all_analysis_ok.
+(* single root: a document outside the workspace is opened and closed - it leaves the project again, its diagnostics are
+   cleared, a.lua's "var not define: g1" is back (what the client without PluginPath did not get) *)
+Theorem C08_indir_single_root_regression :
+  toy_meets deployed w_indir_dk w_indir /\
+  view (snd (run toyA deployed w_indir_dk [AOpen 4])) 0 = [] /\
+  view (snd (run toyA deployed w_indir_dk [AOpen 4])) 4 = [(1, 1, 0)] /\
+  view (snd (run toyA deployed w_indir_dk w_indir)) 0 = [(2, 0, 1)] /\
+  view (snd (run toyA deployed w_indir_dk w_indir)) 4 = [].
+Proof. exact indir_single_root_meets. Qed.
+Print Assumptions C08_indir_single_root_regression.
+(* two workspace folders: the same document is a project file; opening and closing it changes nothing *)
+Theorem C08_indir_multi_root_regression :
+  toy_meets_of toy_all_in deployed w_indir_dk w_indir_all /\
+  view (snd (run toyA_all deployed w_indir_dk [])) 4 = [(1, 1, 0)] /\
+  view (snd (run toyA_all deployed w_indir_dk w_indir_all)) 0 = [] /\
+  view (snd (run toyA_all deployed w_indir_dk w_indir_all)) 4 = [(1, 1, 0)].
+Proof. exact indir_multi_root_meets. Qed.
+Print Assumptions C08_indir_multi_root_regression.
